@@ -5,6 +5,10 @@
 (*   race      first data-race report of the Go race detector ("" = none);   *)
 (*   returned  Close / Suspend / Resume calls all returned within the bound; *)
 (*   leaked    goroutines started by the library still alive after Close;    *)
+(*   sleaked   goroutines started by the library still alive one second after*)
+(*             a Suspend had returned ("no goroutine started by the library  *)
+(*             outlives them"; scenarios with a spinner widget do not log    *)
+(*             this);                                                        *)
 (*   stuck     application goroutines still blocked inside a library call    *)
 (*             after Close;                                                  *)
 (*   orders    per poster, the sequence numbers of its events in the order   *)
@@ -43,6 +47,7 @@ Why(e) ==
   ELSE IF e.race # "" THEN "data-race"
   ELSE IF ~e.returned THEN "shutdown-hang"
   ELSE IF e.leaked # <<>> THEN "goroutine-leak"
+  ELSE IF e.sleaked # <<>> THEN "goroutine-outlives-suspend"
   ELSE IF e.stuck # <<>> THEN "caller-stuck"
   ELSE IF Deadlocked(e) # {} THEN "query-deadlock"
   ELSE IF StuckAfterClose(e) # {} THEN "query-stuck-after-close"
@@ -57,7 +62,7 @@ Next ==
   /\ LET e == Trace[l] IN
      IF e.ev = "run" /\ Why(e) # "ok" THEN
         PrintT("REJECT " \o ToJson([scn |-> e.scn, line |-> l, why |-> Why(e),
-                                    detail |-> e.panic \o e.race \o e.what, leaked |-> e.leaked, stuck |-> e.stuck,
+                                    detail |-> e.panic \o e.race \o e.what, leaked |-> e.leaked, sleaked |-> e.sleaked, stuck |-> e.stuck,
                                     who |-> IF Why(e) = "query-deadlock" THEN QWho(e, Deadlocked(e))
                                             ELSE IF Why(e) = "query-stuck-after-close" THEN QWho(e, StuckAfterClose(e)) ELSE {}]))
      ELSE TRUE
